@@ -191,20 +191,42 @@ CHECK = {
             "bursty / mixed, silences of 0.5 s -1,0,+1,+2 ns and up to 10 s, steady periods that put the rate exactly on a threshold, heartbeats "
             "before any data, between stamps (offsets 0.5 s +-1 ns), after the end, with older stamps.  Non-trivial = the history shows at least two "
             "different verdicts among OK / too low / too high / STALE",
-    "trusted": ["hand-written model coq/RateModel.v (+ DiagModel.v) tied by differential execution (this run)",
-                "translator translate/constants.py (window clamp 4/64, factor 2, 0.5 s, 1e9 ns/s regenerated from source)",
+    "trusted": ["translators translate/tr_C17_rate.py + imptrans.py (clang JSON AST -> Gallina state transformers; its vocabulary: integers "
+                "unbounded, std::queue = list, atomic / SharedVariable load-store = read-write, lock_guard skipped) and translate/constants.py",
+                "constructors of RateMonitoring / CheckupRate (initial field values, 'no data received' diagnostic): model tied by differential "
+                "execution only (this run)",
+                "binary64 theorems: hardware arithmetic = one round-to-nearest-even per C++ operation (no x87 excess precision, no FMA contraction); "
+                "the rounded dictionary B64Ops is not the one executed (ocaml/numf.ml is)",
                 "extraction (ExtrOcamlBasic), ocaml/numf.ml, ocaml/drv_C17.ml", "harness/C17.cpp, python oracle in checks/C17.py",
                 "std::queue, std::chrono::duration<long long, nano>, std::ostream default float formatting == printf %g"],
     "manifest": {
-        "text": "Theorems by induction over arbitrary event lists (data stamps / heartbeats) about the Gallina model of RateMonitoring and "
-                "CheckupRate: queue = last min(k,W) periods, integer sum = span of the window, rate 0 until W+1 stamps then W/span, window clamp, "
-                "time-out rule (iff a stamp was seen and the silence exceeds 500000000 ns), report after every event determined by the history; "
-                "the model's binary64 instance is executed against the real classes on generated histories and the property's statement is "
-                "evaluated in exact integer/rational arithmetic on the implementation's outputs.",
-        "note": "Trusted: Coq kernel; real-number axioms of the standard library for the theorems over R; hand-written model tied only by "
-                "differential execution; extraction; float dictionary; harness and oracle. The rate is compared to 1e-12 relative; inside the "
-                "rounding band of a non-representable threshold either verdict is accepted. 64-bit overflow of stamps is outside the model (Z).",
-        "technique": "Coq proof (induction over event lists, invariants) + extracted-model correspondence run",
+        "text": "SYNTACTIC TIE: durationToNanoSecond / durationToSecond, RateMonitoring::initialize / update / timeout / getRate and "
+                "CheckupRate<CheckupEqualTo<double>> / <CheckupGreaterThan<double>>::evaluate / heartBeatCallback / getReport are regenerated on "
+                "every run from the clang AST of the current source as Gallina state transformers over the fields (coq/gen/SrcRate.v) and proved "
+                "EQUAL to the functions of RateModel.v the theorems are about, for every numeric dictionary (SrcTieC17.v, theorems "
+                "C17_source_tie_*; in CheckupRate the member objects are abstract and instantiated with the model's transformers). "
+                "Theorems by induction over arbitrary event lists (data stamps / heartbeats): queue = last min(k,W) periods, integer sum = span "
+                "of the window, rate 0 until W+1 stamps then W/span, window clamp, time-out rule (iff a stamp was seen and the silence exceeds "
+                "500000000 ns), report after every event determined by the history. BINARY64 (Flocq, C17_rate_binary64_*): 1e9 / (sum / double(W)) "
+                "for integer sum < 2^53 ns and W in [4,64] is W*1e9/sum up to 3*2^-53 relative, correctly rounded (one rounding) when W is a power "
+                "of two and exact when the quotient is a double; the window size and the 0.5 s time-out test are exact in binary64; end to end: "
+                "the double published after any history (increasing stamps, > W of them, not stale, span < 2^53 ns) is W/span within 3*2^-53. "
+                "The model's binary64 instance is also executed against the real classes on generated histories and the property's statement "
+                "is evaluated in exact integer/rational arithmetic on the implementation's outputs.",
+        "note": "Trusted: Coq kernel; real-number axioms of the standard library for the theorems over R and binary64; the AST-to-Gallina "
+                "translator and its vocabulary (unbounded integers: 64-bit overflow of stamps and size_t wrap-around are outside the model; "
+                "queue front on an empty queue = 0; atomicity is C19's); constructors tied by differential execution only; extraction; float "
+                "dictionary; harness and oracle. The tie breaks (checked by hand) on windowSize_ + 1 -> windowSize_, a dropped periods_.pop(), "
+                "2 * moved outside the cast, > -> >= in the time-out test, a dropped checkup_.timeout() (each also with a concrete failing "
+                "input from the oracle), and on a re-associated rate formula 1e9 * W / sum (equal over the reals, different in binary64: "
+                "reported as no-failing-input-found); it survives renaming a local, reordering independent statements, 1 + windowSize_, a "
+                "negated early-return form of timeout, extra locals in CheckupRate::evaluate. A float operation written the other way "
+                "round (expectedRate * 2) is refused as well (the tie is an equality for every dictionary, commutativity is not assumed); "
+                "the regex-based constants translator is stricter still (it refuses any respelling of the three literals' contexts). "
+                "The rate is compared to 1e-12 relative in the correspondence run; inside the rounding band of a non-representable threshold "
+                "either verdict is accepted there.",
+        "technique": "Coq proof (induction over event lists, invariants; Flocq rounding analysis) + source-to-Gallina translation with tie "
+                     "lemmas + extracted-model correspondence run",
     },
     "assumptions": ["stamps fit in 63 bits (long long nanoseconds); data stamps strictly increasing for the rate formula",
                     "the rate is read through a RateMonitoring object fed the same events as the one inside CheckupRate (no accessor exists)",
